@@ -1,5 +1,199 @@
-import EnvVerif.Lemmas.Basic
+/-
+  Props/C07.lean — order- and route-independent assembly.
+
+  "Adding the same set of assertions to the same subject in any order and with any
+  repetition produces byte-identical envelopes; adding an assertion already present
+  changes nothing, removing an assertion just added restores the previous envelope
+  (removing the last one yields the bare subject), unwrapping a wrapped envelope returns
+  it, and no operation alters the envelope it was applied to."
+
+  The last clause holds by construction in the model (all functions are pure); it is
+  checked on the implementation, not proved here.
+-/
+import EnvVerif.Lemmas.AssembleLemmas
 namespace EnvVerif
-/-- placeholder while the property theorems are being written -/
-theorem c07_sort_asc_id {as : List Env} (hs : AscDigests as) : sortByDigest as = as := sortByDigest_of_asc hs
+open Env
+
+/-- Closed form of `addAll` on an envelope satisfying the invariant: an error exactly when
+some element is not a legal assertion slot; otherwise the result has the same subject, a
+strictly ascending stored list, and (digests injective) exactly the union as element set. -/
+theorem addAll_char (h : Hash) (s : Env) (l : List Env) (hi : Inv h s) :
+    addAll h s l =
+      if l.all slotOk then .ok (rebuild h s.subject (l.foldl normAdd s.assertions))
+      else .err "InvalidFormat" := by
+  obtain ⟨hr, hc, _⟩ := rebuild_of_inv hi
+  have := addAll_rebuild h l hc
+  rw [hr] at this
+  exact this
+
+/-- the assertions stored by `addAll`: ascending, and (digests injective on the inputs) the
+union of the old ones and the added ones -/
+theorem addAll_assertions (h : Hash) (s : Env) (l : List Env) (hi : Inv h s)
+    (hslot : ∀ a ∈ l, a.slotOk = true) (hinj : DigInj (l ++ s.assertions)) :
+    ∃ e', addAll h s l = .ok e' ∧ e'.subject = s.subject ∧ AscDigests e'.assertions ∧
+      ∀ x, x ∈ e'.assertions ↔ x ∈ s.assertions ∨ x ∈ l := by
+  obtain ⟨hr, hc, hasc⟩ := rebuild_of_inv hi
+  have hall : l.all slotOk = true := List.all_eq_true.2 hslot
+  refine ⟨_, by rw [addAll_char h s l hi, hall]; rfl, ?_⟩
+  cases hl : l with
+  | nil =>
+    simp only [List.foldl_nil, hr, List.not_mem_nil, or_false]
+    exact ⟨trivial, hasc, fun _ => trivial⟩
+  | cons a l' =>
+    have hne : (a :: l').foldl normAdd s.assertions ≠ [] := by
+      intro hnil
+      have := (mem_foldl_normAdd (a :: l') (hl ▸ hinj) a).2 (Or.inr (by simp))
+      rw [hnil] at this; simp at this
+    rw [rebuild_ne hne]
+    simp only [nodeOf, Env.subject, Env.assertions, true_and]
+    exact ⟨foldl_normAdd_asc _ hasc, mem_foldl_normAdd _ (hl ▸ hinj)⟩
+
+/-- **any order, any repetition**: the same set of assertions added to the same envelope
+gives the same `Res Env` value.  Stronger than the planned statement: the hypothesis that
+the added elements are legal slots is not needed (both sides are then the same error). -/
+theorem addAll_perm_strong (h : Hash) (s : Env) (l1 l2 : List Env) (hi : Inv h s)
+    (hmem : ∀ a, a ∈ l1 ↔ a ∈ l2)
+    (hinj : ∀ a ∈ l1 ++ s.assertions, ∀ b ∈ l1 ++ s.assertions, a.digest = b.digest → a = b) :
+    addAll h s l1 = addAll h s l2 := by
+  obtain ⟨_, _, hasc⟩ := rebuild_of_inv hi
+  rw [addAll_char h s l1 hi, addAll_char h s l2 hi]
+  have hall : l1.all slotOk = l2.all slotOk := by
+    rw [Bool.eq_iff_iff, List.all_eq_true, List.all_eq_true]
+    exact ⟨fun hh a ha => hh a ((hmem a).2 ha), fun hh a ha => hh a ((hmem a).1 ha)⟩
+  rw [hall, foldl_normAdd_perm hasc hmem hinj]
+
+/-- the planned statement of Appendix D -/
+theorem addAll_perm (h : Hash) (s : Env) (l1 l2 : List Env) (hi : Inv h s)
+    (_hslot : ∀ a ∈ l1, a.slotOk = true) (hmem : ∀ a, a ∈ l1 ↔ a ∈ l2)
+    (hinj : ∀ a ∈ l1 ++ s.assertions, ∀ b ∈ l1 ++ s.assertions, a.digest = b.digest → a = b) :
+    addAll h s l1 = addAll h s l2 :=
+  addAll_perm_strong h s l1 l2 hi hmem hinj
+
+/-- under the hypotheses of `addAll_perm` both sides succeed (the statement is not an
+equality of errors) -/
+theorem addAll_perm_ok (h : Hash) (s : Env) (l1 l2 : List Env) (hi : Inv h s)
+    (hslot : ∀ a ∈ l1, a.slotOk = true) (hmem : ∀ a, a ∈ l1 ↔ a ∈ l2)
+    (hinj : ∀ a ∈ l1 ++ s.assertions, ∀ b ∈ l1 ++ s.assertions, a.digest = b.digest → a = b) :
+    ∃ e', addAll h s l1 = .ok e' ∧ addAll h s l2 = .ok e' := by
+  obtain ⟨e', he', _⟩ := addAll_assertions h s l1 hi hslot hinj
+  exact ⟨e', he', (addAll_perm h s l1 l2 hi hslot hmem hinj) ▸ he'⟩
+
+/-- equal envelopes have equal encodings (trivial; makes the chain explicit) -/
+theorem encode_congr {e1 e2 : Env} (he : e1 = e2) : encode e1 = encode e2 := by rw [he]
+
+/-- **any order ⇒ byte-identical** -/
+theorem addAll_perm_bytes (h : Hash) (s : Env) (l1 l2 : List Env) (hi : Inv h s)
+    (hslot : ∀ a ∈ l1, a.slotOk = true) (hmem : ∀ a, a ∈ l1 ↔ a ∈ l2)
+    (hinj : ∀ a ∈ l1 ++ s.assertions, ∀ b ∈ l1 ++ s.assertions, a.digest = b.digest → a = b)
+    (e1 e2 : Env) (h1 : addAll h s l1 = .ok e1) (h2 : addAll h s l2 = .ok e2) :
+    encode e1 = encode e2 ∧ e1.digest = e2.digest := by
+  have := addAll_perm h s l1 l2 hi hslot hmem hinj
+  rw [h1, h2] at this
+  injection this with this
+  subst this
+  exact ⟨rfl, rfl⟩
+
+/-- **adding an assertion already present changes nothing** (no hypothesis on `e`) -/
+theorem add_idempotent (h : Hash) (e a e' : Env) (hadd : addAssertionEnvelope h e a = .ok e') :
+    addAssertionEnvelope h e' a = .ok e' := by
+  unfold addAssertionEnvelope at hadd
+  cases hslot : a.slotOk with
+  | false => simp [hslot] at hadd
+  | true =>
+    simp only [hslot, Bool.not_true, Bool.false_eq_true, if_false] at hadd
+    have key : ∀ (s : Env) (as : List Env), a ∈ as → as ≠ [] →
+        addAssertionEnvelope h (nodeOf h s (sortByDigest as)) a = .ok (nodeOf h s (sortByDigest as)) := by
+      intro s as ha _
+      have : (sortByDigest as).any (fun x => x.digest == a.digest) = true :=
+        any_digest_iff.2 ⟨a, mem_sortByDigest.2 ha, rfl⟩
+      simp [addAssertionEnvelope, hslot, nodeOf, this]
+    cases e with
+    | node s as d =>
+      simp only at hadd
+      split at hadd
+      · rename_i hany
+        injection hadd with hadd
+        subst hadd
+        simp [addAssertionEnvelope, hslot, hany]
+      · rw [newNodeUnchecked_ne (by simp)] at hadd
+        injection hadd with hadd
+        subst hadd
+        exact key s (as ++ [a]) (by simp) (by simp)
+    | _ =>
+      simp only [Env.subject] at hadd
+      rw [newNodeUnchecked_ne (by simp)] at hadd
+      injection hadd with hadd
+      subst hadd
+      exact key _ [a] (by simp) (by simp)
+
+/-- **removing an assertion just added restores the previous envelope** -/
+theorem remove_add (h : Hash) (e a e' : Env) (hi : Inv h e) (hslot : a.slotOk = true)
+    (hnew : ∀ x ∈ e.assertions, x.digest ≠ a.digest)
+    (hadd : addAssertionEnvelope h e a = .ok e') :
+    removeAssertion h e' a = .ok e := by
+  obtain ⟨hr, hc, hasc⟩ := rebuild_of_inv hi
+  obtain ⟨e'', h1, h2⟩ := remove_add_rebuild h hc hasc hslot hnew
+  rw [hr] at h1 h2
+  rw [h1] at hadd
+  injection hadd with hadd
+  subst hadd
+  exact h2
+
+/-- **removing the last one yields the bare subject**: for an envelope that is not a node no
+invariant is needed -/
+theorem remove_last_subject (h : Hash) (e a e' : Env) (hnn : e.isNode = false)
+    (hadd : addAssertionEnvelope h e a = .ok e') :
+    e'.assertions = [a] ∧ removeAssertion h e' a = .ok e := by
+  unfold addAssertionEnvelope at hadd
+  cases hslot : a.slotOk with
+  | false => simp [hslot] at hadd
+  | true =>
+    simp only [hslot, Bool.not_true, Bool.false_eq_true, if_false] at hadd
+    cases e <;> simp [isNode] at hnn <;>
+    · simp only [Env.subject] at hadd
+      rw [newNodeUnchecked_ne (by simp), sortByDigest_singleton] at hadd
+      injection hadd with hadd
+      subst hadd
+      simp [removeAssertion, nodeOf, Env.assertions, Env.subject, findDigestIdx, List.findIdx?_cons]
+
+/-- **unwrapping a wrapped envelope returns it** -/
+theorem unwrap_wrap (h : Hash) (e : Env) : unwrap (wrap h e) = .ok e := rfl
+
+/-! ### the hypotheses are satisfiable -/
+
+section Examples
+open Toy
+/-- `addAll_perm`, `addAll_perm_ok`, `addAll_perm_bytes`: a node with two assertions, a
+third one added together with a repetition of an existing one, in two different orders -/
+example : Inv hLen exNode ∧ (∀ a ∈ [exA3, exA1, exA3], a.slotOk = true) ∧
+    (∀ a, a ∈ [exA3, exA1, exA3] ↔ a ∈ [exA1, exA3]) ∧
+    (∀ a ∈ [exA3, exA1, exA3] ++ exNode.assertions, ∀ b ∈ [exA3, exA1, exA3] ++ exNode.assertions,
+      a.digest = b.digest → a = b) := by
+  refine ⟨exNode_inv, ?_, ?_, ?_⟩
+  · simp [exA3, exA1, newAssertion, slotOk, isSubjectAssertion, isSubjectObscured, isSubjectElided]
+  · intro a; simp only [List.mem_cons, List.not_mem_nil, or_false]
+    constructor
+    · rintro (h | h | h) <;> simp [h]
+    · rintro (h | h) <;> simp [h]
+  · simp [exNode, nodeOf, Env.assertions, exA1, exA2, exA3, newAssertion, newLeaf, Env.digest,
+      Hash.ofDigests, hLen, catDigests, Digest.bytes, beBytes]
+
+/-- `remove_add`: adding `exA3` (new digest) to the node -/
+example : Inv hLen exNode ∧ exA3.slotOk = true ∧ (∀ x ∈ exNode.assertions, x.digest ≠ exA3.digest) ∧
+    ∃ e', addAssertionEnvelope hLen exNode exA3 = .ok e' := by
+  refine ⟨exNode_inv, by simp [exA3, slotOk, isSubjectAssertion, isSubjectObscured, isSubjectElided], ?_, ?_⟩
+  · simp [exNode, nodeOf, Env.assertions, exA1, exA2, exA3, newAssertion, newLeaf, Env.digest,
+      Hash.ofDigests, hLen, catDigests, Digest.bytes, beBytes]
+  · obtain ⟨hr, hc, _⟩ := rebuild_of_inv exNode_inv
+    rw [← hr]
+    exact ⟨_, add_rebuild hLen hc (by simp [exA3, slotOk, isSubjectAssertion, isSubjectObscured, isSubjectElided])⟩
+
+/-- `remove_last_subject`, `add_idempotent`: the bare subject -/
+example : exSubj.isNode = false ∧ ∃ e', addAssertionEnvelope hLen exSubj exA1 = .ok e' := by
+  refine ⟨rfl, ?_⟩
+  have : exSubj = rebuild hLen exSubj [] := rfl
+  rw [this]
+  exact ⟨_, add_rebuild hLen (Or.inl rfl) (by simp [exA1, newAssertion, slotOk, isSubjectAssertion])⟩
+end Examples
+
 end EnvVerif
